@@ -440,6 +440,11 @@ func main() {
 		ov[filepath.Join(pkgDir, "zz_verif_rt.go")] = []byte(s)
 	}
 	w, err := load(*repo, *pkgPath, ov)
+	for attempt := 0; err != nil && attempt < 2; attempt++ {
+		// a concurrent run may have trimmed the go build cache while the packages were being loaded: once more
+		time.Sleep(3 * time.Second)
+		w, err = load(*repo, *pkgPath, ov)
+	}
 	if err != nil {
 		fmt.Fprintln(os.Stderr, "LOAD-FAILED:", err)
 		os.Exit(3)
